@@ -25,7 +25,10 @@ RULE = (
     'stage, default fill, on/off on light/group/location/all, and-lists); '
     'every request must pass the protocol oracle (ints in 0..65535 / '
     '0..2^32-1, valid power level, tile payload shape) and equal the exact '
-    'reference. Non-trivial = at least one transmitted component that is not '
+    'reference; when a `units` switch lies between the settings and the '
+    'command, settings inside the documented ranges (any angle as hue) must '
+    'arrive as the same colour (<= 12/65535 per RGB channel, kelvin +-1). '
+    'Non-trivial = at least one transmitted component that is not '
     'a conversion fixed point (not 0, not full scale); distinct by script.')
 ASSUMPTIONS = [
     'Observation point is the lifxlan device object (SimDevice); zone ranges '
@@ -391,7 +394,40 @@ def check_case(acc, case):
     switched = case.get('switch_to') not in (None, mode)
 
     def matches(acceptable, color):
-        return switched or ux.color_matches(acceptable, color)
+        if not switched:
+            return ux.color_matches(acceptable, color)
+        # re-expressed by a units switch on the way: the same colour, as a
+        # colour (each rgb step may cost a few raw units per channel)
+        if len(color) != 4 or any(a is None for a in acceptable):
+            return True
+        # only for settings inside the documented ranges (a hue in degrees
+        # may be any angle): what a switch makes of others is not laid down
+        if mode == 'raw':
+            valid = all(0 <= regs[r] <= 65535 for r in (
+                'hue', 'saturation', 'brightness')) and \
+                0 <= regs['kelvin'] <= 65535
+        elif mode == 'logical':
+            valid = all(0 <= regs[r] <= 100 for r in (
+                'saturation', 'brightness')) and 0 <= regs['kelvin'] <= 65535
+        else:
+            valid = all(0 <= regs[r] <= 100 for r in (
+                'red', 'green', 'blue')) and 0 <= regs['kelvin'] <= 65535
+        if not valid:
+            return True
+        want = []
+        for entry in acceptable[:3]:
+            if isinstance(entry, tuple):
+                want.append(int(round(entry[1])) % 65536
+                            if entry is acceptable[0]
+                            else min(65535, max(0, int(round(entry[1])))))
+            else:
+                want.append(sorted(entry)[0])
+        if not any(abs(color[3] - k) <= 1 for k in acceptable[3]):
+            return False
+        got_rgb = ux.raw_hsb_to_rgb(color)
+        want_rgb = ux.raw_hsb_to_rgb(want)
+        return all(abs(g - w) * 65535 <= 12
+                   for g, w in zip(got_rgb, want_rgb))
     duration_ok = ux.duration_acceptable(mode, regs['duration'])
     wanted = expected_commands(case)
     events = [e for e in result.trace if e[0] == 'cmd']
